@@ -91,6 +91,30 @@ def run(prog, chk):
     chk.rule("C19.owner", "owning locals are released exactly once or handed over on every path", floor=250)
     chk.rule("C19.absorbed", "an error exit does not destroy a caller's object that was linked into a new object (the caller releases it too)", floor=3)
     chk.rule("C19.dangling", "a released field of a live object is reassigned before the function returns", floor=20)
+    chk.rule("C19.refdrop", "a reference taken with X_ref is always kept: the value of the call is stored, handed on or returned, never discarded", floor=1)
+    nref = 0
+    from ksirules.model import strip as strip_, walk as walk_
+    for fn in sorted(prog.all_functions(), key=lambda f: (f.unit, f.line)):
+        for b, i, el in fn.elems():
+            e = el["e"]
+            if not isinstance(e, dict):
+                continue
+            top = strip_(e)
+            for n in walk_(e):
+                if n.get("k") == "call" and (n.get("fn") or "").endswith("_ref") and (n["fn"].startswith("KSI_") or n["fn"] in prog.functions):
+                    nref += 1
+            while isinstance(top, dict) and top.get("k") == "cast":
+                top = strip_(top["e"])
+            if isinstance(top, dict) and top.get("k") == "call" and (top.get("fn") or "").endswith("_ref") and not el.get("used", False):
+                # the statement IS the call: is its value referenced by a later element (CFG sub-expression reference)?
+                used = any(m.get("k") == "ref" and m.get("b") == b and m.get("i") == i for b2, i2, el2 in fn.elems() if isinstance(el2["e"], dict) for m in walk_(el2["e"]))
+                if not used:
+                    chk.ob("C19.refdrop", "%s:%s" % (fn.name, top["fn"]), False,
+                           "%s(...) as a statement of its own: the new reference is dropped at once - where a release was meant the object now has two "
+                           "references too many and is never freed" % top["fn"], loc=fn.loc(fn.elem_line(b, i)), fn=fn)
+    chk.ob("C19.refdrop", "whole-program", True, "%d X_ref calls looked at" % nref, loc="src/ksi", nontrivial=False)
+    if nref < 40:
+        raise AnalysisBroken("C19.refdrop: only %d X_ref calls found" % nref)
     chk.rule("C19.nullcheck", "allocation results are compared with NULL before the first dereference", floor=60)
     chk.rule("C19.dropped", "no error status is overwritten before it can be observed", floor=400)
 
